@@ -5,6 +5,8 @@ import (
 	"fmt"
 	"os"
 	"strings"
+
+	wire "github.com/jeroenrinzema/psql-wire"
 )
 
 func flatCase(id int, class string, cfg cfgT, raw []byte, chunks []int) *caseT {
@@ -591,12 +593,56 @@ func runC10(c *runCfg) error {
 // ---------------- C19 ----------------
 func init() { runners["C19"] = runC19 }
 
+// several servers created from one option list: the option values of the later middlewares are the same Go values
+// for every server (an application builds "common options" once), the first middleware differs per server.
+// A connection of either server runs that server's own chain, in registration order.
+func runC19shared(c *runCfg, idp *int) {
+	for _, nmw := range []int{2, 3, 4} {
+		for _, served := range []int{0, 1, 2} {
+			reg := &registry{recs: map[string]*recorder{}}
+			var cases []*caseT
+			for k := 0; k < 3; k++ {
+				cfg := simpleCfg(256)
+				cfg.tag = k + 1
+				cfg.shareMw = true
+				for i := 0; i < nmw; i++ {
+					cfg.mws = append(cfg.mws, true)
+				}
+				cs := lockCase(*idp, "shared_options", cfg, stdStartup, [][]byte{mQuery([]byte("select 1")), mParse(nil, []byte("select 1"), 0), mSync(), mTerminate()})
+				cases = append(cases, cs)
+			}
+			// all servers are configured (in order) before any connection is served
+			var srvs []*wire.Server
+			for _, cs := range cases {
+				srv, err := buildServer(&cs.cfg, reg)
+				if err != nil {
+					panic(err)
+				}
+				srvs = append(srvs, srv)
+			}
+			cs := cases[served]
+			conn, rec := newSession(cs, reg)
+			o := driveSession(cs, conn, rec, srvs[served])
+			c.out.line("(sess " + cs.id + " " + cs.class + " " + cs.sxHead() + " " + o.sx(false) + ")")
+			c.stat("class_" + cs.class)
+			*idp++
+		}
+	}
+}
+
 func runC19(c *runCfg) error {
 	if c.replay != "" {
+		if b, err := os.ReadFile(c.replay); err == nil && bytes.Contains(b, []byte(" shared_options ")) {
+			id := 0
+			runC19shared(c, &id)
+			return nil
+		}
 		return replaySessions(c)
 	}
 	g := &gen{rng: c.rng}
-	id := 0
+	id := 700000
+	runC19shared(c, &id)
+	id = 0
 	hist := [][][]byte{
 		{mQuery([]byte("select 1"))},
 		{mParse(nil, []byte("select 1"), 0), mBind(nil, nil, nil, nil, nil), mExecute(nil, 0), mSync()},
